@@ -446,8 +446,9 @@ def foreign_layout(rng, kind, ident):
         multi = rng.random() < 0.4
         if multi:
             items.append(b"COVERART=" + b"QUJD" * rng.choice([1100, 1650]))
-        return dict(shape="oggflac", behind=[t for t, _ in behind], multipage=multi, vendor_len=len(vendor)), \
-            SO.oggflac(ident, vendor, items, behind=behind, comment_pages=multi)
+        mux = rng.random() < 0.4
+        return dict(shape="oggflac", behind=[t for t, _ in behind], multipage=multi, vendor_len=len(vendor), foreign_stream=mux), \
+            SO.oggflac(ident, vendor, items, behind=behind, comment_pages=multi, foreign=mux)
     if c == "opus" and rng.random() < 0.7:
         b0 = rng.choice([1, 3, 0x81, 0xFF, 0, 2, 0x20, rng.randrange(256)])
         trailer = bytes([b0]) + rng.choice([b"", b"\x00", SO.OPAQUE, SO.STALE[1:], b" " * 95])
@@ -460,8 +461,9 @@ def foreign_layout(rng, kind, ident):
             SO.headers_shared_page(c, ident, SO.comment_packet(c, vendor, items, total), first_part=part)
     size = rng.choice([255, 1020, 4080])
     total = max(minimal, rng.choice([size, size + 1, 2 * size - 1, 2 * size, 2 * size + 255, 3 * size, 3 * size + 7]))
-    return dict(shape="own-pages", comment_len=total, page_payload=size, vendor_len=len(vendor)), \
-        SO.headers_own_pages(c, ident, SO.comment_packet(c, vendor, items, total), page_size=size)
+    mux = rng.random() < 0.4        # a second logical stream with one page between every two pages of the comment packet
+    return dict(shape="own-pages", comment_len=total, page_payload=size, vendor_len=len(vendor), foreign_stream=mux), \
+        SO.headers_own_pages(c, ident, SO.comment_packet(c, vendor, items, total), page_size=size, foreign=mux)
 
 
 def layout_crosscheck(ctx):
